@@ -53,7 +53,9 @@ pub struct Case {
 
 fn frame_fragment(bytes: &[u8]) -> Option<(u8, Fragment)> {
     match rl::try_frame(bytes) {
-        rl::TryFrame::Ok(f, n) if n == bytes.len() && f.payload.len() > 1 => Fragment::parse(&f.payload[1..]).map(|fr| (f.payload[0], fr)),
+        rl::TryFrame::Ok(f, n) if n == bytes.len() && f.payload.len() > 1 => {
+            Fragment::parse(&f.payload[1..]).map(|fr| (f.payload[0], fr))
+        }
         _ => None,
     }
 }
@@ -442,7 +444,15 @@ impl Prop for Accuracy {
         run_case(case)
     }
     fn floors() -> Vec<(&'static str, u32)> {
-        vec![("reported_success", 250), ("failure_condition", 150), ("lan", 200), ("non_lan", 200), ("exact", 50), ("prelude", 200), ("prelude_cut", 50)]
+        vec![
+            ("reported_success", 250),
+            ("failure_condition", 150),
+            ("lan", 200),
+            ("non_lan", 200),
+            ("exact", 50),
+            ("prelude", 200),
+            ("prelude_cut", 50),
+        ]
     }
 }
 
